@@ -10,6 +10,7 @@
 package main
 
 import (
+	"bufio"
 	"bytes"
 	"encoding/hex"
 	"flag"
@@ -244,6 +245,7 @@ type rtCase struct {
 	Invalid   string   `json:"invalid,omitempty"` // the generator produced a program that does not compile
 	Diffs     []diff   `json:"diffs"`
 	NBytes    int      `json:"nbytes"`
+	Reader    string   `json:"reader"` // how the bytes were handed to the decoder and destroyed afterwards
 	NFuncs    int      `json:"nfuncs"`
 	Err       string   `json:"err,omitempty"`
 	Failed    bool     `json:"failed"` // the program fails at run time (same way on both sides unless a diff says otherwise)
@@ -260,6 +262,73 @@ func writeProg(p *starlark.Program) ([]byte, error) {
 	var buf bytes.Buffer
 	err := p.Write(&buf)
 	return buf.Bytes(), err
+}
+
+// clobberBytes is what the input is overwritten with: the encoding of another
+// program, repeated, or 0xff bytes.
+var otherProgram []byte
+
+func clobberFill(n int, k int) []byte {
+	out := make([]byte, n)
+	if k%2 == 0 {
+		for i := range out {
+			out[i] = 0xff
+		}
+		return out
+	}
+	if otherProgram == nil {
+		o := syntax.FileOptions{}
+		_, p, err := starlark.SourceProgramOptions(&o, "other.star", "OTHER = \"zzzzzzzzzzzzzzzzzzzzzzzzzzzzzzzzzzzzzzzzzz\"\ndef other(q, r = \"ooooooooo\"):\n    return [q, r, OTHER] * 3\nvalue = other(1)\n", isPredeclared)
+		if err != nil {
+			panic(err)
+		}
+		otherProgram, _ = writeProg(p)
+	}
+	for i := range out {
+		out[i] = otherProgram[i%len(otherProgram)]
+	}
+	return out
+}
+
+func decodeAndClobber(id int, b1 []byte) (p *starlark.Program, how string, err error) {
+	in := append([]byte(nil), b1...)
+	fill := clobberFill(len(in), id/5)
+	switch id % 5 {
+	case 0:
+		how = "bytes.Buffer, then reused for another program"
+		buf := bytes.NewBuffer(in)
+		p, err = starlark.CompiledProgram(buf)
+		buf.Reset()
+		buf.Write(fill)
+		copy(in, fill)
+	case 1:
+		how = "bytes.Reader, then slice overwritten"
+		p, err = starlark.CompiledProgram(bytes.NewReader(in))
+		copy(in, fill)
+	case 2:
+		how = "bufio.Reader, then slice overwritten"
+		p, err = starlark.CompiledProgram(bufio.NewReaderSize(bytes.NewReader(in), 16+id%4096))
+		copy(in, fill)
+	case 3:
+		how = "os.File, then file rewritten"
+		f, e := os.CreateTemp("", "c17-*.bin")
+		if e != nil {
+			return nil, how, e
+		}
+		defer os.Remove(f.Name())
+		f.Write(in)
+		f.Seek(0, 0)
+		p, err = starlark.CompiledProgram(f)
+		f.Seek(0, 0)
+		f.Write(fill)
+		f.Close()
+		copy(in, fill)
+	default:
+		how = "DecodeProgram on a byte slice, then slice overwritten"
+		p, err = starlark.VerifDecodeProgram(in)
+		copy(in, fill)
+	}
+	return p, how, err
 }
 
 // roundTrip performs every comparison of part (a) on one source program.
@@ -294,9 +363,15 @@ func roundTrip(id int, filename, src string, opts syntax.FileOptions, feats []st
 			}
 		}
 	}
-	p2, err := starlark.CompiledProgram(bytes.NewReader(b1))
+	// Decode from a private copy of the bytes through one of several reader
+	// types, then destroy that input (reuse the buffer for another program,
+	// overwrite the slice, rewrite the file) BEFORE the decoded program is
+	// executed, dumped or written again: the program must not depend on the
+	// caller's buffer after CompiledProgram has returned.
+	p2, how, err := decodeAndClobber(id, b1)
+	c.Reader = how
 	if err != nil {
-		add("roundtrip:decode-error", "CompiledProgram(Write(p)) failed: "+err.Error())
+		add("roundtrip:decode-error", "CompiledProgram(Write(p)) failed ("+how+"): "+err.Error())
 		return c
 	}
 	// re-Write: identical bytes
